@@ -353,7 +353,7 @@ func runC14(c *Ctx) {
 	}
 	for _, a := range ch.AnonFuncs {
 		for _, d := range callsIn(a, "(rt.ClientAuthInfoWriter).AuthenticateRequest") {
-			noHdr := factEqString(vOrigins(oCallWhere(-1, "(net/http.Header).Get", func(g *ssa.Call) bool {
+			noHdr := factEqString(vOrigins(oConstString(""), oCallWhere(-1, "(net/http.Header).Get", func(g *ssa.Call) bool {
 				recv, ga := callArgs(&g.Call)
 				k, _ := constString(ga[0])
 				okR, _ := allOrigins(recv, oCall(-1, "(rt.ClientRequest).GetHeaderParams"))
